@@ -12,6 +12,9 @@ import (
 	"crypto/sha256"
 	"encoding/binary"
 	"encoding/hex"
+	"encoding/json"
+	"os"
+	"strconv"
 	"testing"
 
 	"github.com/btcsuite/btcd/chainhash/v2"
@@ -66,9 +69,106 @@ func vSynthStore(p *RevocationProducer, k uint64) ([]byte, error) {
 	return buf.Bytes(), nil
 }
 
+// vReplayCase re-executes the inputs of a recorded case (replay file written
+// by the check) on the real code and emits what the implementation answers
+// now.
+func vReplayCase(t *testing.T, out *vWriter, path string) {
+	raw, err := os.ReadFile(path)
+	if err != nil {
+		t.Fatalf("replay: %v", err)
+	}
+	var rep struct {
+		Detail struct {
+			Case struct {
+				Case int     `json:"case"`
+				Kind string  `json:"kind"`
+				Ops  [][]any `json:"ops"`
+			} `json:"case"`
+		} `json:"detail"`
+	}
+	dec := json.NewDecoder(bytes.NewReader(raw))
+	dec.UseNumber()
+	if err := dec.Decode(&rep); err != nil {
+		t.Fatalf("replay: %v", err)
+	}
+	u64 := func(x any) uint64 {
+		n, _ := strconv.ParseUint(string(x.(json.Number)), 10, 64)
+		return n
+	}
+	hash := func(x any) chainhash.Hash {
+		var h chainhash.Hash
+		b, _ := hex.DecodeString(x.(string))
+		copy(h[:], b)
+		return h
+	}
+	store := NewRevocationStore()
+	var ops []vOp
+	var k uint64
+	for _, o := range rep.Detail.Case.Ops {
+		switch o[0].(string) {
+		case "load":
+			enc, _ := hex.DecodeString(o[1].(string))
+			s2, err := NewRevocationStoreFromBytes(bytes.NewReader(enc))
+			ops = append(ops, vOp{"load", o[1], err == nil})
+			if err == nil {
+				store = s2
+				k = uint64(startIndex) - uint64(s2.index)
+			}
+		case "add":
+			h := hash(o[1])
+			err := store.AddNextEntry(&h)
+			ops = append(ops, vOp{"add", o[1], err == nil})
+			if err == nil {
+				k++
+			}
+		case "lookup":
+			v := u64(o[1])
+			res, err := store.LookUp(v)
+			if err != nil {
+				ops = append(ops, vOp{"lookup", v, nil})
+			} else {
+				ops = append(ops, vOp{"lookup", v, hx(res[:])})
+			}
+		case "encdec":
+			var b bytes.Buffer
+			if err := store.Encode(&b); err != nil {
+				t.Fatalf("encode: %v", err)
+			}
+			s2, err := NewRevocationStoreFromBytes(bytes.NewReader(b.Bytes()))
+			if err != nil {
+				ops = append(ops, vOp{"load", hx(b.Bytes()), false})
+				continue
+			}
+			store = s2
+			ops = append(ops, vOp{"encdec", hx(b.Bytes())})
+		case "prod":
+			root := hash(o[1])
+			v := u64(o[2])
+			h, err := NewRevocationProducer(root).AtIndex(v)
+			if err != nil {
+				ops = append(ops, vOp{"prod", o[1], v, nil})
+			} else {
+				ops = append(ops, vOp{"prod", o[1], v, hx(h[:])})
+			}
+		case "sha":
+			m, _ := hex.DecodeString(o[1].(string))
+			d := sha256.Sum256(m)
+			ops = append(ops, vOp{"sha", o[1], hx(d[:])})
+		}
+	}
+	out.emit(map[string]any{
+		"case": rep.Detail.Case.Case, "kind": rep.Detail.Case.Kind, "k": k,
+		"nbuckets": store.lenBuckets, "ops": ops, "aborted": "",
+	})
+}
+
 func TestVerifShachain(t *testing.T) {
 	out := vOpenOut()
 	defer out.close()
+	if p := vReplay(); p != "" {
+		vReplayCase(t, out, p)
+		return
+	}
 	master := vNewRng(vSeed())
 	ncases := vCases(120, 4000)
 
